@@ -146,6 +146,42 @@ def holder_m():
                 dtor=None)
 
 
+# a generic class in the middle of a hierarchy: virtual dispatch through a specialisation that inherits its overrides
+HIER_SRC = """class Root0 {
+  public constructor() -> Root0 { }
+  public virtual function who() -> string { return "Root0"; }
+  public virtual function rank() -> int { return 0; }
+  public function intro() -> string { return "I am " + who() + "/" + rank(); }
+}
+class Mid0 extends Root0 {
+  public constructor() -> Mid0 { super(); }
+  public override function who() -> string { return "Mid0"; }
+}
+class GLeaf<T> extends Mid0 {
+  public int tag = 1;
+  public constructor() -> GLeaf<T> { super(); }
+  public override function rank() -> int { return 2 + this.tag; }
+}
+class IntLeaf0 extends GLeaf<int> {
+  public constructor() -> IntLeaf0 { super(); }
+}
+"""
+
+
+def hier_m(types):
+    who = lambda n: ("who", [], "str", [("ret", S(n))], False, "virtual" if n == "Root0" else "override")
+    out = [dict(name="Root0", base=None, fields=[], ctors=[([], None, [], False)],
+                meths=[who("Root0"), ("rank", [], "int", [("ret", I(0))], False, "virtual"),
+                       ("intro", [], "str", [("ret", ("bin", "+", ("bin", "+", ("bin", "+", S("I am "), ("call", "who", [])), S("/")), ("call", "rank", [])))], False, "")],
+                dtor=None),
+           dict(name="Mid0", base="Root0", fields=[], ctors=[([], [], [], False)], meths=[who("Mid0")], dtor=None)]
+    for t in types:
+        out.append(dict(name=cls("GLeaf", t), base="Mid0", fields=[(False, False, "int", "tag", I(1))], ctors=[([], [], [], False)],
+                        meths=[("rank", [], "int", [("ret", ("bin", "+", I(2), ("fld", T_, "tag")))], False, "override")], dtor=None))
+    out.append(dict(name="IntLeaf0", base=cls("GLeaf", "int"), fields=[], ctors=[([], [], [], False)], meths=[], dtor=None))
+    return out
+
+
 def gen(rng, chunks=False):
     """-> (source text, fns, classes-for-the-model); chunks=True returns the source as a list of top-level declarations"""
     types = ["int", "long", "float", "str", "bool"]
@@ -218,13 +254,33 @@ def gen(rng, chunks=False):
     body.insert(3, ("echo", ("mcall", ("mcall", V("hd"), "getKey", []), "show", [])))
     need["Key"] = key_m()
     need["Holder"] = holder_m()
+    # the hierarchy with a generic class in the middle
+    hier_types = ["int"] + rng.sample(["long", "str", "bool", "float"], rng.randint(0, 2))
+    show = ("show", "void", [(("cls", "Root0"), "r")], [("echo", ("mcall", V("r"), "who", [])), ("echo", ("mcall", V("r"), "intro", []))])
+    for t in hier_types:
+        x = fresh("g")
+        body.append(("decl", False, ("cls", cls("GLeaf", t)), x, ("new", cls("GLeaf", t), [])))
+        body.append(("echo", ("mcall", V(x), "who", [])))
+        body.append(("echo", ("mcall", V(x), "intro", [])))
+        body.append(("echo", ("mcall", V(x), "rank", [])))
+    body.append(("decl", False, ("cls", "IntLeaf0"), "il", ("new", "IntLeaf0", [])))
+    body.append(("echo", ("mcall", V("il"), "intro", [])))
+    body.append(("decl", False, ("cls", "Root0"), "up", V("il")))
+    body.append(("echo", ("mcall", V("up"), "who", [])))
+    body.append(("echo", ("mcall", V("up"), "rank", [])))
+    body.append(("expr", ("call", "show", [V("il")])))
+    body.append(("decl", False, ("cls", "Mid0"), "md", ("new", "Mid0", [])))
+    body.append(("expr", ("call", "show", [V("md")])))
+    for c in hier_m(hier_types):
+        need[c["name"]] = c
     body.append(("echo", S("end")))
-    fns = [("main", "void", [], body)]
+    fns = [show, ("main", "void", [], body)]
     classes = list(need.values())
     wrap_src = WRAP_SRC
     if rng.random() < 0.5:
         wrap_src = WRAP_SRC.replace("Wrap<T>", "Wrap<Key>").replace("Cell<T>", "Cell<Key>").replace("(T v)", "(Key v)")
-    parts = [CELL_SRC, LABELED_SRC, ENTRY_SRC, wrap_src, KEY_SRC, HOLDER_SRC, lg.fn_src(fns[0])]
+    parts = [CELL_SRC, LABELED_SRC, ENTRY_SRC, wrap_src, KEY_SRC, HOLDER_SRC] + \
+            [c + "\n}\n" for c in HIER_SRC.split("\n}\n") if c.strip()] + [lg.fn_src(f) for f in fns]
     if chunks:
         return parts, fns, classes
     return "\n".join(parts), fns, classes
